@@ -322,6 +322,7 @@ fn gen_swkey(module: &Module<BE>, n: usize, shape: KeyShape, sk_in: &Sk, sk_out:
 struct AtKey {
     shape: KeyShape,
     p: i64,
+    key: GLWEAutomorphismKey<Vec<u8>>,
     prep: GLWEAutomorphismKeyPrepared<DeviceBuf<BE>, BE>,
 }
 
@@ -361,7 +362,7 @@ fn gen_atkey(module: &Module<BE>, n: usize, shape: KeyShape, p: i64, sk: &Sk, rn
     let mut prep = module.glwe_automorphism_key_prepared_alloc_from_infos(&lay);
     let bytes = module.glwe_automorphism_key_prepare_tmp_bytes(&lay);
     lib_call(rep, "glwe_automorphism_key_prepare", &desc, bytes, rng, |sc| module.glwe_automorphism_key_prepare(&mut prep, &key, sc))?;
-    Some(AtKey { shape, p, prep })
+    Some(AtKey { shape, p, key, prep })
 }
 
 // ---------------------------------------------------------------------------------------------
@@ -664,6 +665,99 @@ fn run_auto_form(module: &Module<BE>, n: usize, key: &AtKey, sk: &Sk, form: &'st
     });
 }
 
+/// composition of automorphism keys (GGLWE automorphism): `glwe_automorphism_key_automorphism(res, key(p0), key(p1))` must be a key for
+/// p0*p1 — its recorded Galois element, every row (decrypted under sigma_{(p0 p1)^-1}(s)) and its use in `glwe_automorphism`
+fn run_atk_compose(module: &Module<BE>, n: usize, k0: &AtKey, k1: &AtKey, sk: &Sk, rng: &mut Rng, rep: &mut Report) {
+    let shape = k0.shape;
+    let lay = at_layout(n, &shape);
+    let two_n = 2 * n as i64;
+    let want_p = ((k0.p as i128 * k1.p as i128).rem_euclid(two_n as i128)) as i64;
+    let bytes = module.glwe_automorphism_key_automorphism_tmp_bytes(&lay, &lay, &lay);
+    let s1 = sk.clear.norm1();
+    for form in ["glwe_automorphism_key_automorphism", "glwe_automorphism_key_automorphism_assign"] {
+        let mut desc = base_desc(n, &shape);
+        desc.put("galois_a", k0.p.rem_euclid(two_n));
+        desc.put("galois_key", k1.p.rem_euclid(two_n));
+        desc.put("galois_product", want_p);
+        desc.put("product_wraps_n", want_p >= n as i64);
+        let mut res = if form.ends_with("_assign") { k0.key.clone() } else { GLWEAutomorphismKey::alloc_from_infos(&lay) };
+        let done = lib_call(rep, form, &desc, bytes, rng, |sc| {
+            if form.ends_with("_assign") {
+                module.glwe_automorphism_key_automorphism_assign(&mut res, &k1.prep, sc)
+            } else {
+                module.glwe_automorphism_key_automorphism(&mut res, &k0.key, &k1.prep, sc)
+            }
+        });
+        if done.is_none() {
+            continue;
+        }
+        rep.count("atk_compositions", 1);
+        if want_p >= n as i64 {
+            rep.count("atk_compositions_product_ge_n", 1);
+        }
+        let ckey = format!("{BE_NAME}|{n}|{}|{}|{}", shape.key(), k0.p.rem_euclid(two_n), k1.p.rem_euclid(two_n));
+        rep.case(&format!("{form}:galois"), &ckey, true);
+        if res.p().rem_euclid(two_n) != want_p {
+            let mut d = desc.clone();
+            d.put("got", res.p());
+            rep.violate(&format!("{form}:galois"), d, format!("composed key records Galois element {} but sigma_{} o sigma_{} = sigma_{want_p} (mod {two_n})", res.p(), k0.p, k1.p));
+            continue;
+        }
+        // rows: s_c * 2^-((r+1) dsize b) under sigma_{p^-1}(s); error = fresh row error + one key switch of a key.size-limb input + normalisation
+        let pinv = pow_mod(want_p as u64, (n as u64) - 1, two_n as u64) as i64;
+        let sk_out = ClearSk { n, polys: sk.clear.polys.iter().map(|x| automorphism_i64(x, pinv)).collect() };
+        let w = shape.size * shape.b + 16;
+        let row_bound = gadget_bound(n, &shape, shape.size, s1, s1) + (1.0 + s1 as f64) * unit(shape.size, shape.b) + (BOUND_XE + 1.0) * p2(-(shape.k as f64));
+        let mut rows_ok = true;
+        'rows: for r in 0..shape.dnum {
+            for c in 0..shape.rank_in {
+                let ph = phase_of_cols(&glwe_cols(&res.at(r, c), w), &sk_out);
+                let sh = w - (r + 1) * shape.dsize * shape.b;
+                let err: Vec<Big> = (0..n).map(|i| &ph[i] - (Big::from(sk.clear.polys[c][i]) << sh)).collect();
+                let mut d = desc.clone();
+                d.put("row", r);
+                d.put("col", c);
+                if !judge(rep, &format!("{form}:rows"), &d, &format!("{ckey}|{r}|{c}"), &err, w, row_bound, true) {
+                    rows_ok = false;
+                    break 'rows;
+                }
+            }
+        }
+        if !rows_ok {
+            continue;
+        }
+        // use: the composed key must act as sigma_{p0 p1}; its rows carry row_bound instead of the fresh-encryption error
+        let mut prep = module.glwe_automorphism_key_prepared_alloc_from_infos(&lay);
+        let pb = module.glwe_automorphism_key_prepare_tmp_bytes(&lay);
+        if lib_call(rep, "glwe_automorphism_key_prepare", &desc, pb, rng, |sc| module.glwe_automorphism_key_prepare(&mut prep, &res, sc)).is_none() {
+            continue;
+        }
+        let (a_b, a_size) = (shape.b, rng.usize_in(1, shape.size.min(5)));
+        let (a, cls) = input_ct(module, n, a_b, a_size, sk, rng, rep);
+        let w2 = shape.size * shape.b + 64;
+        let ph_in = glwe_phase(&a, &sk.clear, w2);
+        let rows = shape.dnum.min(a_size.div_ceil(shape.dsize)) as f64;
+        let digit = p2(shape.b as f64 - 1.0) * (p2((shape.dsize * shape.b) as f64) - 1.0) / (p2(shape.b as f64) - 1.0);
+        let fresh = gadget_bound(n, &shape, a_size, s1, s1);
+        let use_bound = fresh.total + shape.rank_in as f64 * rows * n as f64 * digit * row_bound.total + (1.0 + s1 as f64) * unit(a_size, a_b);
+        if use_bound >= 0.125 {
+            rep.count("atk_compose_use_bound_vacuous", 1);
+            continue;
+        }
+        let mut out = random_glwe(n, a_b, a_size, shape.rank_in, "uniform", rng);
+        let ab = module.glwe_automorphism_tmp_bytes(&a.glwe_layout(), &a.glwe_layout(), &lay);
+        let mut d = desc.clone();
+        d.put("a_size", a_size);
+        d.put("class_a", cls);
+        if lib_call(rep, "glwe_automorphism", &d, ab, rng, |sc| module.glwe_automorphism(&mut out, &a, &prep, sc)).is_none() {
+            continue;
+        }
+        let err = poly_sub(&glwe_phase(&out, &sk.clear, w2), &automorphism_big(&ph_in, want_p));
+        judge(rep, &format!("{form}:use"), &d, &format!("{ckey}|{a_size}|{cls}"), &err, w2, use_bound, cls != "zero");
+        rep.count("atk_compose_used", 1);
+    }
+}
+
 /// Galois arithmetic of the module, checked against modular arithmetic done here
 fn check_galois_arith(module: &Module<BE>, n: usize, rep: &mut Report) {
     let two_n = 2 * n as i64;
@@ -716,6 +810,14 @@ fn run_auto(cfg: &Cfg, rng: &mut Rng, rep: &mut Report) {
                     rep.count("galois_elements", 1);
                     for form in AUTO_FORMS {
                         run_auto_form(module, n, &key, &sk, form, a_b, a_size, rng, rep, via);
+                    }
+                    // every other key is also composed with a second key of the same shape for a random unit of (Z/2NZ)*
+                    if rng.below(2) == 0 {
+                        let units = all_galois_elements(n);
+                        let p1 = *rng.pick(&units);
+                        if let Some(key1) = gen_atkey(module, n, shape, p1, &sk, rng, rep, false) {
+                            run_atk_compose(module, n, &key, &key1, &sk, rng, rep);
+                        }
                     }
                 }
             }
